@@ -1768,6 +1768,8 @@ class Interp:
                 return obj
         if cls is slice and not kwargs and 1 <= len(args) <= 3:
             return slice(*args)  # a plain container (eval_index builds the same object for a[lo:hi:step])
+        if cls is dict and len(args) <= 1 and all(type(a) is dict for a in args):
+            return dict(*args, **kwargs)  # shallow copy of a plain Python dict (values may be symbolic): a container operation
         if contains_sym((args, kwargs)):
             m = reg.models.get(cls)
             raise OutOfSubset(f"constructing native {cls.__name__} from symbolic arguments")
